@@ -2,7 +2,7 @@
 import json, os, re, time
 
 VERIF = os.path.dirname(os.path.dirname(os.path.abspath(__file__)))
-EVID = os.path.join(VERIF, "evidence")
+EVID = os.environ.get("PGCHECK_EVID", os.path.join(VERIF, "evidence"))
 KNOWN = os.path.join(VERIF, "KNOWN_FINDINGS.txt")
 
 
